@@ -39,6 +39,9 @@ func sameFailure(ref, got *Result) bool {
 	if r1 == "" || r1 != r2 {
 		return false
 	}
+	if strings.HasSuffix(r1, ".data-race") && ref.Viol != nil && got.Viol != nil && ref.Viol.Msg != got.Viol.Msg {
+		return false // another pair of accesses
+	}
 	if ref.Crashed {
 		return got.Crashed && ref.CrashSite == got.CrashSite
 	}
@@ -49,6 +52,7 @@ func replayJob(ref *Result, tape map[string]int) *Job {
 	j := &Job{ID: 1, Prop: ref.Prop, Profile: ref.Profile, Seed: ref.Seed, Replay: tape, IsRep: true, WantLog: true}
 	if ref.job != nil {
 		j.Knobs = ref.job.Knobs
+		j.RaceFiles = ref.job.RaceFiles
 	}
 	return j
 }
@@ -292,6 +296,10 @@ func cmdReplay(args []string) int {
 		fmt.Fprintln(os.Stderr, "bad replay file:", err)
 		return 2
 	}
+	isRace := strings.HasSuffix(rf.Rule, ".data-race")
+	if isRace {
+		os.Setenv("VERIF_RACE", "1") // found by the race pass: replayed on a worker with the race detector
+	}
 	b, err := build.Build(repoDir(), filepath.Join(verifDir(), "sim"))
 	if b != nil {
 		defer os.RemoveAll(b.Scratch)
@@ -301,6 +309,9 @@ func cmdReplay(args []string) int {
 		return 2
 	}
 	job := &Job{ID: 1, Prop: rf.Property, Profile: rf.Profile, Seed: rf.Seed, Replay: rf.Tape, IsRep: true, WantLog: true, Knobs: rf.Knobs}
+	if isRace {
+		job.RaceFiles = anchorFiles(verifDir(), rf.Property)
+	}
 	res := RunOne(b.Worker, job, "1")
 	for _, l := range res.Log {
 		fmt.Println(l)
